@@ -21,70 +21,80 @@ LEVEL = "other"
 LO, HI = 1, (1 << 32) - 1
 
 
+INF = float("inf")
+TOPIV = (-INF, INF)
+
+
 def _interval_region(ctx, f, g, region_nodes, entry_node, var, start):
-    """Forward interval analysis of `var` over the nodes of a with-region.  Returns {node: (lo, hi) at node entry}."""
+    """Forward interval analysis over the nodes of a with-region for the counter `var` and every local assigned inside the
+    region.  Returns ({node: env at node entry}, {node: env after node}); env maps variable keys to (lo, hi)."""
     fold = ctx.fold
-    IN = {entry_node: start}
+    df = ctx.df(f)
+    IN = {entry_node: {var: start}}
     work = [entry_node]
     iters = 0
     OUTE = {}
-    while work and iters < 500:
+    while work and iters < 2000:
         iters += 1
         n = work.pop(0)
-        cur = IN[n]
-        if cur is None:
-            continue
-        lo, hi = cur
-        # transfer
+        env = dict(IN[n])
         a = n.ast
-        if n.kind == "stmt" and isinstance(a, ast.AugAssign) and varkey(a.target) == var:
-            ok, v = fold.try_eval(a.value, f.mod, {})
-            if ok and isinstance(v, int) and isinstance(a.op, ast.Add):
-                lo, hi = lo + v, hi + v
-            elif ok and isinstance(v, int) and isinstance(a.op, ast.Sub):
-                lo, hi = lo - v, hi - v
+        if n.kind == "stmt" and isinstance(a, ast.AugAssign) and varkey(a.target):
+            k = varkey(a.target)
+            cur = env.get(k)
+            rhs = _arith(ctx, f, a.value, env)
+            if cur is not None and rhs is not None and isinstance(a.op, ast.Add):
+                env[k] = (cur[0] + rhs[0], cur[1] + rhs[1])
+            elif cur is not None and rhs is not None and isinstance(a.op, ast.Sub):
+                env[k] = (cur[0] - rhs[1], cur[1] - rhs[0])
             else:
-                lo, hi = float("-inf"), float("inf")
-        elif n.kind == "stmt" and isinstance(a, ast.Assign) and any(varkey(t) == var for t in a.targets):
-            ok, v = fold.try_eval(a.value, f.mod, {})
-            if ok and isinstance(v, int):
-                lo, hi = v, v
-            else:
-                # x = x + 1 / x = (x + 1) % M  / x = x % M + 1
-                r = _arith(ctx, f, a.value, var, (lo, hi))
-                lo, hi = r if r is not None else (float("-inf"), float("inf"))
-        elif n.kind == "stmt" and isinstance(a, (ast.Assign, ast.AugAssign, ast.Delete)):
-            for d in ctx.df(f).node_defs.get(n, []):
-                if d.var == var and d.kind != "base":
-                    lo, hi = float("-inf"), float("inf")
+                env[k] = TOPIV
+        elif n.kind == "stmt" and isinstance(a, ast.Assign) and len(a.targets) == 1 and varkey(a.targets[0]):
+            r = _arith(ctx, f, a.value, env)
+            env[varkey(a.targets[0])] = r if r is not None else TOPIV
+        elif n.kind == "stmt":
+            for d in df.node_defs.get(n, []):
+                if d.kind != "base" and d.var in env:
+                    env[d.var] = TOPIV
+        # anything the node may modify through calls
+        for d in df.node_defs.get(n, []):
+            if d.kind not in ("base", "assign", "aug") and d.var in env:
+                env[d.var] = TOPIV
         for d, l in g.succ[n]:
             if d not in region_nodes or l == "exc":
                 continue
-            nlo, nhi = lo, hi
+            nenv = env
             if n.kind == "test" and l in ("true", "false"):
-                r = _refine(ctx, f, n.ast.test, var, (lo, hi), l == "true")
-                if r is None:
+                nenv = _refine(ctx, f, n.ast.test, env, l == "true")
+                if nenv is None:
                     continue    # branch infeasible
-                nlo, nhi = r
             old = IN.get(d)
-            new = (nlo, nhi) if old is None else (min(old[0], nlo), max(old[1], nhi))
+            if old is None:
+                new = dict(nenv)
+            else:
+                new = {}
+                for k in set(old) & set(nenv):
+                    new[k] = (min(old[k][0], nenv[k][0]), max(old[k][1], nenv[k][1]))
             if new != old:
                 IN[d] = new
-                work.append(d)
-        OUTE[n] = (lo, hi)
+                if d not in work:
+                    work.append(d)
+        OUTE[n] = env
     return IN, OUTE
 
 
-def _arith(ctx, f, e, var, iv):
+def _arith(ctx, f, e, env):
+    """Interval of an integer expression under env (None: unknown)."""
     e = unawait(e)
-    if varkey(e) == var:
-        return iv
+    k = varkey(e)
+    if k and k in env:
+        return env[k]
     ok, v = ctx.fold.try_eval(e, f.mod, {})
-    if ok and isinstance(v, int):
+    if ok and isinstance(v, int) and not isinstance(v, bool):
         return (v, v)
     if isinstance(e, ast.BinOp):
-        a = _arith(ctx, f, e.left, var, iv)
-        b = _arith(ctx, f, e.right, var, iv)
+        a = _arith(ctx, f, e.left, env)
+        b = _arith(ctx, f, e.right, env)
         if a is None or b is None:
             return None
         if isinstance(e.op, ast.Add):
@@ -98,59 +108,122 @@ def _arith(ctx, f, e, var, iv):
         if isinstance(e.op, ast.BitAnd) and b[0] == b[1] and b[0] >= 0:
             return (0, b[0])
     if isinstance(e, ast.IfExp):
-        t = _refine(ctx, f, e.test, var, iv, True)
-        o = _refine(ctx, f, e.test, var, iv, False)
+        t = _refine(ctx, f, e.test, env, True)
+        o = _refine(ctx, f, e.test, env, False)
         parts = []
         if t is not None:
-            r = _arith(ctx, f, e.body, var, t)
+            r = _arith(ctx, f, e.body, t)
             if r is None:
                 return None
             parts.append(r)
         if o is not None:
-            r = _arith(ctx, f, e.orelse, var, o)
+            r = _arith(ctx, f, e.orelse, o)
             if r is None:
                 return None
             parts.append(r)
         if parts:
             return (min(p[0] for p in parts), max(p[1] for p in parts))
+    if isinstance(e, ast.Call) and isinstance(e.func, ast.Name) and e.func.id in ("max", "min") and len(e.args) == 2 and not e.keywords:
+        a = _arith(ctx, f, e.args[0], env)
+        b = _arith(ctx, f, e.args[1], env)
+        if a is not None and b is not None:
+            fn = max if e.func.id == "max" else min
+            return (fn(a[0], b[0]), fn(a[1], b[1]))
     return None
 
 
-def _refine(ctx, f, test, var, iv, pol):
-    """Interval of var on the branch where `test` has truth value pol; None if infeasible; unchanged if unknown."""
-    lo, hi = iv
+def _refine(ctx, f, test, env, pol):
+    """env on the branch where `test` has truth value pol; None if infeasible; unchanged if the test says nothing usable."""
     t = unawait(test)
     if isinstance(t, ast.UnaryOp) and isinstance(t.op, ast.Not):
-        return _refine(ctx, f, t.operand, var, iv, not pol)
+        return _refine(ctx, f, t.operand, env, not pol)
+    if isinstance(t, ast.BoolOp) and ((isinstance(t.op, ast.And) and pol) or (isinstance(t.op, ast.Or) and not pol)):
+        cur = env
+        for v in t.values:
+            cur = _refine(ctx, f, v, cur, pol)
+            if cur is None:
+                return None
+        return cur
     if isinstance(t, ast.Compare) and len(t.ops) == 1:
         a, b, op = t.left, t.comparators[0], type(t.ops[0])
         flip = {ast.Lt: ast.Gt, ast.Gt: ast.Lt, ast.LtE: ast.GtE, ast.GtE: ast.LtE, ast.Eq: ast.Eq, ast.NotEq: ast.NotEq}
-        if varkey(unawait(b)) == var and op in flip:
-            a, b, op = b, a, flip[op]
-        if varkey(unawait(a)) == var:
-            ok, k = ctx.fold.try_eval(b, f.mod, {})
-            if ok and isinstance(k, int):
+        ka, kb = varkey(unawait(a)), varkey(unawait(b))
+        if not (ka and ka in env) and kb and kb in env and op in flip:
+            a, b, op, ka = b, a, flip[op], kb
+        if ka and ka in env and op in flip:
+            lo, hi = env[ka]
+            r = _arith(ctx, f, b, env)
+            if r is not None and r[0] == r[1] and r[0] not in (INF, -INF):
+                k = r[0]
                 if not pol:
                     op = {ast.Lt: ast.GtE, ast.Gt: ast.LtE, ast.LtE: ast.Gt, ast.GtE: ast.Lt, ast.Eq: ast.NotEq, ast.NotEq: ast.Eq}.get(op)
+                new = (lo, hi)
                 if op is ast.Eq:
-                    return (k, k) if lo <= k <= hi else None
-                if op is ast.NotEq:
+                    new = (k, k) if lo <= k <= hi else None
+                elif op is ast.NotEq:
                     if lo == hi == k:
-                        return None
-                    if lo == k:
-                        return (lo + 1, hi)
-                    if hi == k:
-                        return (lo, hi - 1)
-                    return (lo, hi)
-                if op is ast.Lt:
-                    return (lo, min(hi, k - 1)) if lo <= k - 1 else None
-                if op is ast.LtE:
-                    return (lo, min(hi, k)) if lo <= k else None
-                if op is ast.Gt:
-                    return (max(lo, k + 1), hi) if hi >= k + 1 else None
-                if op is ast.GtE:
-                    return (max(lo, k), hi) if hi >= k else None
-    return (lo, hi)
+                        new = None
+                    elif lo == k:
+                        new = (lo + 1, hi)
+                    elif hi == k:
+                        new = (lo, hi - 1)
+                elif op is ast.Lt:
+                    new = (lo, min(hi, k - 1)) if lo <= k - 1 else None
+                elif op is ast.LtE:
+                    new = (lo, min(hi, k)) if lo <= k else None
+                elif op is ast.Gt:
+                    new = (max(lo, k + 1), hi) if hi >= k + 1 else None
+                elif op is ast.GtE:
+                    new = (max(lo, k), hi) if hi >= k else None
+                if new is None:
+                    return None
+                out = dict(env)
+                out[ka] = new
+                return out
+    return env
+
+
+def _equal_to_counter(ctx, f, g, region_nodes, entry_node, var):
+    """Must-analysis: which variables are known to hold the same value as the counter (at node entry / after the node)."""
+    df = ctx.df(f)
+    IN = {entry_node: frozenset()}
+    OUT = {}
+    work = [entry_node]
+    while work:
+        n = work.pop(0)
+        cur = set(IN[n])
+        a = n.ast
+        handled = False
+        if n.kind == "stmt" and isinstance(a, ast.Assign) and len(a.targets) == 1:
+            tk, vk = varkey(a.targets[0]), varkey(unawait(a.value))
+            if tk == var and vk:
+                cur = {vk}            # counter = x
+                handled = True
+            elif tk and vk == var:
+                cur.add(tk)           # x = counter
+                handled = True
+            elif tk and vk and vk in cur and tk != var:
+                cur.add(tk)           # y = x, x == counter
+                handled = True
+        if not handled:
+            for d in df.node_defs.get(n, []):
+                if d.kind == "base":
+                    continue
+                if d.var == var:
+                    cur = set()
+                else:
+                    cur.discard(d.var)
+        OUT[n] = frozenset(cur)
+        for d, l in g.succ[n]:
+            if d not in region_nodes or l == "exc":
+                continue
+            old = IN.get(d)
+            new = frozenset(cur) if old is None else (old & frozenset(cur))
+            if new != old:
+                IN[d] = new
+                if d not in work:
+                    work.append(d)
+    return IN, OUT
 
 
 def check(ctx, R):
@@ -195,7 +268,7 @@ def id_rules(ctx, R):
         outside = [n for n in g.nodes if n not in region and n is not g.entry and any(d.var == var and d.kind in ("aug", "assign") for d in df.node_defs.get(n, []))]
         for n in outside:
             R.fail("ID-section", "%s|%s" % (f.qualname, norm_stmt(n.ast)), "the counter is modified outside the critical section", f.loc(n.ast))
-        # capture: the transaction object's local id reads the counter inside the same region
+        # capture: the id handed to the transaction object
         caps = []
         for n in g.live_nodes():
             for c in node_calls(n):
@@ -206,38 +279,50 @@ def id_rules(ctx, R):
             continue
         cn, cc = caps[0]
         lid = cc.args[0] if cc.args else next((k.value for k in cc.keywords if k.arg == "local_id"), None)
-        reads_counter = lid is not None and var in vars_in(lid)
-        if reads_counter:
-            R.check(cn in region, "ID-section", f.qualname + "|capture-inside",
-                    "the id is captured into the transaction object inside the same critical section as the increment",
-                    "the id is read from the counter outside the critical section that incremented it: two concurrent opens can capture the same id", f.loc(cn.ast))
-            cap_expr_is_counter = varkey(unawait(lid)) == var
-        else:
-            # captured through a local variable assigned inside the region
-            k = varkey(unawait(lid)) if lid is not None else None
-            d = df.unique_def(cn, k) if k else None
-            ok = d is not None and d.kind == "assign" and d.node in region and varkey(unawait(d.value)) == var
-            R.check(ok, "ID-section", f.qualname + "|capture-inside", "the id is copied from the counter inside the critical section",
-                    "the transaction object's local id (`%s`) is not a copy of the counter taken inside the critical section" % (src(lid) if lid is not None else "?"), f.loc(cn.ast))
-            cap_expr_is_counter = ok
-            if ok:
-                cn = d.node
-        # interval analysis
+        lk = varkey(unawait(lid)) if lid is not None else None
         first = [d for d, l in g.succ[W] if l == "next"]
         if not first:
             raise AnalysisError("ID-interval", "empty critical section")
         IN, OUT = _interval_region(ctx, f, g, region, first[0], var, (0, HI))
-        at_cap = IN.get(cn)
-        if cap_expr_is_counter and at_cap is not None:
-            R.check(LO <= at_cap[0] and at_cap[1] <= HI, "ID-interval", f.qualname + "|captured",
-                    "captured id lies in [%d, %d] given a counter in [0, 2^32-1] on entry" % (at_cap[0], at_cap[1]),
-                    "the captured id can be %s (interval [%s, %s]); it must stay in [1, 2^32-1]" % ("0" if at_cap[0] <= 0 else ">= 2^32", at_cap[0], at_cap[1]), f.loc(cn.ast))
+        EQI, EQO = _equal_to_counter(ctx, f, g, region, first[0], var)
+        exits = [n for n in region if any(d not in region and l != "exc" for d, l in g.succ[n])]
+        # (a) the value captured is the counter's value as the section leaves it, read while the lock is held:
+        #     either the counter itself read inside the section, or a local that equals the counter at every exit of the section
+        if lk == var:
+            inside_ok = cn in region and not any(any(d.var == var and d.kind != "base" for d in df.node_defs.get(m, [])) for m in g.reach([cn], exc=False) if m in region)
+            why = "the id is read from the counter outside the critical section that incremented it: two concurrent opens can capture the same id"
+            if cn in region and not inside_ok:
+                why = "the counter is modified again after the id was captured"
+        elif lk and "." not in lk:
+            local_defs = df.reaching(cn, lk)
+            inside_ok = bool(local_defs) and all(d.node in region for d in local_defs) and bool(exits) and all(lk in EQO.get(x, ()) for x in exits)
+            why = "the transaction object's local id (`%s`) is not the value the counter holds when the critical section is left (a copy taken inside it)" % src(lid)
+        else:
+            inside_ok = False
+            why = "the transaction object's local id (`%s`) is neither the counter nor a local copy of it" % (src(lid) if lid is not None else "?")
+        R.check(inside_ok, "ID-section", f.qualname + "|capture-inside",
+                "the id captured is the counter's value of this critical section (read under the lock)", why, f.loc(cn.ast))
+        # (b) interval of the captured value
+        at = None
+        if inside_ok and lk == var:
+            at = (IN.get(cn) or {}).get(var)
+        elif inside_ok:
+            ivs = [(OUT.get(x) or {}).get(var) for x in exits]
+            at = None if any(v is None for v in ivs) or not ivs else (min(v[0] for v in ivs), max(v[1] for v in ivs))
+        if at is not None:
+            R.check(LO <= at[0] and at[1] <= HI, "ID-interval", f.qualname + "|captured",
+                    "captured id lies in [%s, %s] given a counter in [0, 2^32-1] on entry" % (at[0], at[1]),
+                    "the captured id can be %s (interval [%s, %s]); it must stay in [1, 2^32-1]" % ("0" if at[0] <= 0 else ">= 2^32", at[0], at[1]), f.loc(cn.ast))
         else:
             R.fail("ID-interval", f.qualname + "|captured", "cannot bound the captured id", f.loc(cn.ast))
+        # (c) the section cannot be crossed without writing the counter (every open advances it)
+        writes = [n for n in region if any(d.var == var and d.kind != "base" for d in df.node_defs.get(n, []))]
+        crossed = any(x in g.reach(first, avoid=writes, exc=False, include_start=True) for x in exits if x not in writes) if writes else True
+        R.check(not crossed, "ID-section", f.qualname + "|advance-every-path", "every pass through the critical section writes the counter",
+                "the critical section can be left without the counter having been advanced: the next open reuses the id", f.loc(W.ast))
         # at region exit the invariant is re-established (induction over opens)
-        exits = [n for n in region if any(d not in region and l != "exc" for d, l in g.succ[n])]
         for n in exits:
-            o = OUT.get(n)
+            o = (OUT.get(n) or {}).get(var)
             if o is None:
                 continue
             R.check(0 <= o[0] and o[1] <= HI, "ID-interval", "%s|exit:%s" % (f.qualname, norm_stmt(n.ast) if n.ast is not None else n.kind),
@@ -254,10 +339,40 @@ def id_rules(ctx, R):
                         opens.append((n, c, b))
         R.check(len(opens) == 1, "ID-open", f.qualname + "|open-site", "one OPEN construction site", "expected one OPEN construction site, found %d" % len(opens), f.loc())
         for n, c, b in opens:
-            a0 = c.args[1] if len(c.args) > 1 else None
-            k = varkey(unawait(a0)) if a0 is not None else None
-            obj = k.rsplit(".", 1)[0] if k and k.endswith(".local_id") else None
-            d = df.unique_def(n, obj) if obj else None
-            ok = d is not None and d.kind == "assign" and any(cc is x for x in node_calls(d.node))
+            from ..util import arg_of
+            a0 = arg_of(c, 1, "arg0")
+            ok = a0 is not None and same_id_as_captured(ctx, f, n, a0, cn, cc, lid)
             R.check(ok, "ID-open", f.qualname + "|open-arg0", "OPEN.arg0 is the local id of the transaction object created in the critical section",
                     "OPEN.arg0 (`%s`) is not the id captured in the critical section" % (src(a0) if a0 is not None else "?"), f.loc(n.ast))
+
+
+def same_id_as_captured(ctx, f, n, a0, cn, cc, lid):
+    """Is expression a0 (evaluated at node n) the id that was handed to the transaction object built by call cc at node cn?
+    Accepted: `<that object>.local_id`, or the same local variable with the same reaching definitions as at the capture (shared
+    state such as the counter itself is not accepted: another thread may have advanced it in between)."""
+    df = ctx.df(f)
+
+    def follow(node, e):
+        e = unawait(e)
+        for _ in range(4):
+            if not isinstance(e, ast.Name):
+                break
+            d = df.unique_def(node, e.id)
+            if d is None or d.kind != "assign" or d.path or d.value is None:
+                break
+            v = unawait(d.value)
+            if isinstance(v, ast.Name) or (isinstance(v, ast.Attribute) and v.attr == "local_id"):
+                node, e = d.node, v
+            else:
+                break
+        return node, e
+    n0, e0 = follow(n, a0)
+    k = varkey(e0)
+    if k and k.endswith(".local_id"):
+        d = df.unique_def(n0, k.rsplit(".", 1)[0])
+        return d is not None and d.kind == "assign" and any(cc is x for x in node_calls(d.node))
+    if isinstance(e0, ast.Name) and lid is not None:
+        n1, e1 = follow(cn, lid)
+        if isinstance(e1, ast.Name) and e1.id == e0.id:
+            return df.reaching(n0, e0.id) == df.reaching(n1, e1.id) and bool(df.reaching(n0, e0.id))
+    return False
